@@ -245,9 +245,10 @@ def do_fs(op, a):
             return [[[x.string, x.uri] for x in found], [t_record(r) for r in records], [t_record(r) for r in singles]]
         return out(f)
     if op == 'get_paths':
-        return out(lambda: [t_record(r) for r in GetFromPaths(a[0] or None).get(a[1], attributes=list(a[2]) or None, sid_encode=enc_fn(a[3]))])
+        # (the records are collected first, as a caller keeping the results does, then serialised)
+        return out(lambda: [t_record(r) for r in list(GetFromPaths(a[0] or None).get(a[1], attributes=list(a[2]) or None, sid_encode=enc_fn(a[3])))])
     if op == 'get_all':
-        return out(lambda: [t_record(r) for r in GetFromAll().get(a[0], attributes=list(a[1]) or None, sid_encode=enc_fn(a[2]))])
+        return out(lambda: [t_record(r) for r in list(GetFromAll().get(a[0], attributes=list(a[1]) or None, sid_encode=enc_fn(a[2])))])
     if op == 'get_data_all':
         return out(lambda: t_record(GetFromAll().get_data(a[0], attributes=list(a[1]) or None, sid_encode=enc_fn(a[2]))))
     if op == 'find_paths':
